@@ -41,7 +41,14 @@ func ints(s string) []int {
 		return []int{}
 	}
 	parts := strings.Split(s, ",")
-	out := make([]int, len(parts))
+	// every int list handed to the library has spare capacity filled with a sentinel: a callee that
+	// appends to (or writes beyond) the caller's slice is noticed by spareClobbered
+	const spare = 4
+	full := make([]int, len(parts)+spare)
+	for i := len(parts); i < len(full); i++ {
+		full[i] = spareSentinel
+	}
+	out := full[:len(parts)]
 	for i, p := range parts {
 		v, err := strconv.Atoi(p)
 		if err != nil {
@@ -49,7 +56,32 @@ func ints(s string) []int {
 		}
 		out[i] = v
 	}
+	if trackSpares {
+		spares = append(spares, full[len(parts):])
+	}
 	return out
+}
+
+const spareSentinel = -777777
+
+var (
+	trackSpares bool
+	spares      [][]int
+)
+
+// spareClobbered reports (and forgets) whether the spare capacity of any int list handed out since
+// the last call was written to.
+func spareClobbered() bool {
+	bad := false
+	for _, sp := range spares {
+		for _, v := range sp {
+			if v != spareSentinel {
+				bad = true
+			}
+		}
+	}
+	spares = spares[:0]
+	return bad
 }
 
 func fints(xs []int) string {
